@@ -17,9 +17,11 @@ Definition wait_of (n : N) : wait_result :=
 Definition show_low (l : option bool) : bytes :=
   match l with None => [x2d] | Some true => s2b "true" | Some false => s2b "false" end.
 
-Definition run_submit (sha : bytes -> bytes) (prechain : bool) (bodylen : N) (json_ok : bool)
+(* earlier: None, or the issuers of the entry this request is deduplicated against (the same
+   leaf submitted before, possibly through another chain): the answer carries THAT entry *)
+Definition run_submit_gen (sha : bytes -> bytes) (prechain : bool) (bodylen : N) (json_ok : bool)
     (raws : list bytes) (vchain : option (list acert)) (tbs_none tbs_pre : option bytes)
-    (now : Z) (wait : N) : bytes :=
+    (now : Z) (wait : N) (earlier : option (list bytes)) : bytes :=
   let parse_body := fun _ : bytes => if json_ok then Some raws else None in
   let validate := fun (_ : list bytes) (_ : window) (_ : list bytes) => vchain in
   let build := fun (_ : bytes) (pi : option acert) => match pi with None => tbs_none | Some _ => tbs_pre end in
@@ -31,9 +33,20 @@ Definition run_submit (sha : bytes -> bytes) (prechain : bool) (bodylen : N) (js
   | Rejected c => decZ c ++ x3a :: low ++ x3a :: [x2d]
   | Accepted e _ =>
     let code := respond (wait_of wait) true true in
-    decZ code ++ x3a :: low ++ x3a :: (if (code =? 200)%Z then show_entry sha e else [x2d])
+    let e' := match earlier with Some iss => dedup_entry e iss | None => e end in
+    decZ code ++ x3a :: low ++ x3a :: (if (code =? 200)%Z then show_entry sha e' else [x2d])
   | Crash => s2b "panic"
   end.
+
+Definition run_submit (sha : bytes -> bytes) (prechain : bool) (bodylen : N) (json_ok : bool)
+    (raws : list bytes) (vchain : option (list acert)) (tbs_none tbs_pre : option bytes)
+    (now : Z) (wait : N) : bytes :=
+  run_submit_gen sha prechain bodylen json_ok raws vchain tbs_none tbs_pre now wait None.
+
+Definition run_submit_dedup (sha : bytes -> bytes) (prechain : bool) (bodylen : N) (json_ok : bool)
+    (raws : list bytes) (vchain : option (list acert)) (tbs_none tbs_pre : option bytes)
+    (now : Z) (wait : N) (earlier_issuers : list bytes) : bytes :=
+  run_submit_gen sha prechain bodylen json_ok raws vchain tbs_none tbs_pre now wait (Some earlier_issuers).
 
 Definition show_list (l : list bytes) : bytes :=
   match l with [] => [x2d] | _ => join_with x2c (map hx l) end.
